@@ -70,6 +70,32 @@ type c18S6 struct {
 	M map[string]*int16 `cty:"m"`
 }
 
+// mis-tagged structs: structTagIndices keeps the later of two fields with one tag; a tag that
+// is not NFC never matches the (normalised) attribute name.  What the code does is modelled;
+// the round trip is not demanded of them (excluded from the theorem by rtSide).
+type c18Dup struct {
+	A int    `cty:"a"`
+	B string `cty:"a"`
+	C bool   `cty:"c"`
+}
+
+type c18DupSame struct {
+	A int `cty:"k"`
+	B int `cty:"k"`
+}
+
+type c18NonNFCTag struct {
+	A int  `cty:"e\u0301"`
+	B int  `cty:"b"`
+	P *int `cty:"A\u030a"`
+}
+
+type c18S8 struct {
+	L []cty.Value          `cty:"l"`
+	M map[string]cty.Value `cty:"m"`
+	N int                  `cty:"n"`
+}
+
 var (
 	c18BigIntT   = reflect.TypeOf(big.Int{})
 	c18BigFloatT = reflect.TypeOf(big.Float{})
@@ -79,27 +105,32 @@ var (
 type c18Fam struct {
 	rt        reflect.Type
 	roundtrip bool // take part in the round-trip experiment
+	mistagged bool // a struct with duplicate or non-NFC tags: correspondence only, the round trip is not judged
 }
 
 func c18T(v interface{}) reflect.Type { return reflect.TypeOf(v).Elem() }
 
 var c18Family = []c18Fam{
-	{c18T(new(int8)), true}, {c18T(new(int16)), true}, {c18T(new(int32)), true}, {c18T(new(int64)), true}, {c18T(new(int)), true},
-	{c18T(new(uint8)), true}, {c18T(new(uint16)), true}, {c18T(new(uint32)), true}, {c18T(new(uint64)), true}, {c18T(new(uint)), true},
-	{c18T(new(float32)), true}, {c18T(new(float64)), true}, {c18T(new(string)), true}, {c18T(new(bool)), true},
-	{c18T(new([]string)), true}, {c18T(new([]int16)), true}, {c18T(new([3]int8)), true}, {c18T(new([2]*string)), true},
-	{c18T(new(map[string]int)), true}, {c18T(new(map[string][]bool)), true},
-	{c18T(new(*int)), true}, {c18T(new(**int)), true}, {c18T(new(*string)), true}, {c18T(new(*[]string)), true},
-	{c18T(new(c18S1)), true}, {c18T(new(c18S2)), true}, {c18T(new(c18S3)), true}, {c18T(new(c18S4)), true},
-	{c18T(new(*c18S1)), true}, {c18T(new(map[string]c18S1)), true},
-	{c18BigIntT, true}, {c18BigFloatT, true}, {c18T(new(*big.Int)), true}, {c18ValueT, true},
+	{c18T(new(int8)), true, false}, {c18T(new(int16)), true, false}, {c18T(new(int32)), true, false}, {c18T(new(int64)), true, false}, {c18T(new(int)), true, false},
+	{c18T(new(uint8)), true, false}, {c18T(new(uint16)), true, false}, {c18T(new(uint32)), true, false}, {c18T(new(uint64)), true, false}, {c18T(new(uint)), true, false},
+	{c18T(new(float32)), true, false}, {c18T(new(float64)), true, false}, {c18T(new(string)), true, false}, {c18T(new(bool)), true, false},
+	{c18T(new([]string)), true, false}, {c18T(new([]int16)), true, false}, {c18T(new([3]int8)), true, false}, {c18T(new([2]*string)), true, false},
+	{c18T(new(map[string]int)), true, false}, {c18T(new(map[string][]bool)), true, false},
+	{c18T(new(*int)), true, false}, {c18T(new(**int)), true, false}, {c18T(new(*string)), true, false}, {c18T(new(*[]string)), true, false},
+	{c18T(new(c18S1)), true, false}, {c18T(new(c18S2)), true, false}, {c18T(new(c18S3)), true, false}, {c18T(new(c18S4)), true, false},
+	{c18T(new(*c18S1)), true, false}, {c18T(new(map[string]c18S1)), true, false},
+	{c18BigIntT, true, false}, {c18BigFloatT, true, false}, {c18T(new(*big.Int)), true, false}, {c18ValueT, true, false},
 	// containers whose element type is or contains a pointer / slice: entries must not alias one another
-	{c18T(new(map[string]*int)), true}, {c18T(new(map[string]**int)), true}, {c18T(new(map[string]c18S5)), true}, {c18T(new(map[string]*c18S1)), true},
-	{c18T(new(map[string][]int)), true}, {c18T(new(map[string]map[string]*string)), true},
-	{c18T(new([]*int)), true}, {c18T(new([]**int8)), true}, {c18T(new([3]*int16)), true}, {c18T(new([]c18S5)), true}, {c18T(new([2]c18S5)), true},
-	{c18T(new(c18S6)), true}, {c18T(new([]*c18S6)), true}, {c18T(new(map[string]*big.Int)), true}, {c18T(new([]*big.Float)), true},
-	{c18T(new(c18Emb)), true}, {c18T(new([]c18Emb)), true}, // embedded (anonymous) struct field carrying a tag
-	{c18T(new([]cty.Value)), false}, // decode target only: a list of dynamic values has no single element type
+	{c18T(new(map[string]*int)), true, false}, {c18T(new(map[string]**int)), true, false}, {c18T(new(map[string]c18S5)), true, false}, {c18T(new(map[string]*c18S1)), true, false},
+	{c18T(new(map[string][]int)), true, false}, {c18T(new(map[string]map[string]*string)), true, false},
+	{c18T(new([]*int)), true, false}, {c18T(new([]**int8)), true, false}, {c18T(new([3]*int16)), true, false}, {c18T(new([]c18S5)), true, false}, {c18T(new([2]c18S5)), true, false},
+	{c18T(new(c18S6)), true, false}, {c18T(new([]*c18S6)), true, false}, {c18T(new(map[string]*big.Int)), true, false}, {c18T(new([]*big.Float)), true, false},
+	{c18T(new(c18Emb)), true, false}, {c18T(new([]c18Emb)), true, false}, // embedded (anonymous) struct field carrying a tag
+	// containers of embedded dynamic values: members of one type round-trip, members of different types must be refused
+	{c18T(new([]cty.Value)), true, false}, {c18T(new(map[string]cty.Value)), true, false}, {c18T(new([2]cty.Value)), true, false}, {c18T(new([]*cty.Value)), true, false},
+	{c18T(new(c18S8)), true, false},
+	{c18T(new(c18Dup)), true, true}, {c18T(new(c18DupSame)), true, true}, {c18T(new(c18NonNFCTag)), true, true},
+	{c18T(new([]c18Dup)), true, true}, {c18T(new(map[string]*c18NonNFCTag)), true, true},
 }
 
 var c18IntTypes = c18Family[:10]
@@ -304,6 +335,44 @@ func c18Strings(v reflect.Value, out map[string]struct{}) {
 	}
 }
 
+// c18TagTab: the oracle column for the struct tags of a Go type (ImpliedType hands them to
+// cty.Object, which normalises attribute names)
+func c18TagTab(rt reflect.Type) string {
+	m := map[string]struct{}{}
+	seen := map[reflect.Type]bool{}
+	var walk func(rt reflect.Type)
+	walk = func(rt reflect.Type) {
+		if seen[rt] || rt == c18BigIntT || rt == c18BigFloatT || rt == c18ValueT {
+			return
+		}
+		seen[rt] = true
+		switch rt.Kind() {
+		case reflect.Ptr, reflect.Slice, reflect.Array, reflect.Map:
+			walk(rt.Elem())
+		case reflect.Struct:
+			for i := 0; i < rt.NumField(); i++ {
+				if t := rt.Field(i).Tag.Get("cty"); t != "" {
+					m[t] = struct{}{}
+				}
+				walk(rt.Field(i).Type)
+			}
+		}
+	}
+	walk(rt)
+	keys := make([]string, 0, len(m))
+	for k := range m {
+		keys = append(keys, k)
+	}
+	sort.Strings(keys)
+	var parts []string
+	for _, k := range keys {
+		if n := cty.NormalizeString(k); n != k {
+			parts = append(parts, "("+encStr(k)+" "+encStr(n)+")")
+		}
+	}
+	return "(" + strings.Join(parts, " ") + ")"
+}
+
 func c18NormTab(v reflect.Value) (tab string, allNFC bool) {
 	m := map[string]struct{}{}
 	c18Strings(v, m)
@@ -404,6 +473,11 @@ type c18Gen struct {
 	// entries and no pointer is nil, so that entries sharing a pointee after decoding show up
 	distinct bool
 	seq      int
+	// cty.Value members of a slice, array or map: cvTy != nil — all of this one type (a cty list or map
+	// has one element type); cvTyped — each of a type of its own, never the dynamic pseudo-type
+	cvTy     *cty.Type
+	cvTyped  bool
+	hitMixed bool // a container of cty.Value got members of different types
 }
 
 var c18NonNFCAtoms = []string{"é", "Å", "가", "áb"}
@@ -519,6 +593,44 @@ func c18RandUint(r *rand.Rand, bits int) uint64 {
 	}
 }
 
+// c18CvalElem: the element type is cty.Value, possibly behind pointers
+func c18CvalElem(rt reflect.Type) bool {
+	for rt.Kind() == reflect.Ptr {
+		rt = rt.Elem()
+	}
+	return rt == c18ValueT
+}
+
+// c18MixedCval: a slice, array or map whose cty.Value members (behind non-nil pointers) are not all of one type
+func c18MixedCval(v reflect.Value) bool {
+	var tys []cty.Type
+	add := func(e reflect.Value) {
+		for e.Kind() == reflect.Ptr {
+			if e.IsNil() {
+				return
+			}
+			e = e.Elem()
+		}
+		tys = append(tys, e.Interface().(cty.Value).Type())
+	}
+	switch v.Kind() {
+	case reflect.Slice, reflect.Array:
+		for i := 0; i < v.Len(); i++ {
+			add(v.Index(i))
+		}
+	case reflect.Map:
+		for _, k := range v.MapKeys() {
+			add(v.MapIndex(k))
+		}
+	}
+	for _, t := range tys {
+		if !t.Equals(tys[0]) {
+			return true
+		}
+	}
+	return false
+}
+
 func c18NilableElem(rt reflect.Type) bool {
 	if rt == c18ValueT {
 		return true
@@ -553,9 +665,31 @@ func (g *c18Gen) gen(rt reflect.Type, depth int) reflect.Value {
 		v.Set(reflect.ValueOf(*c18RandBigFloat(r)))
 		return v
 	case c18ValueT:
+		if g.cvTy != nil || g.cvTyped {
+			t := genTy(r, 1, TyOpts{})
+			if g.cvTy != nil {
+				t = *g.cvTy
+			}
+			v.Set(reflect.ValueOf(genVal(r, t, 2, ValOpts{Unknown: true, Null: true, Marks: r.Intn(4) == 0})))
+			return v
+		}
 		t := genTy(r, 2, TyOpts{Dyn: true, Capsule: false})
 		v.Set(reflect.ValueOf(genVal(r, t, 2, ValOpts{Unknown: true, Null: true, Marks: true, DynVal: true})))
 		return v
+	}
+	if k := rt.Kind(); (k == reflect.Slice || k == reflect.Array || k == reflect.Map) && c18CvalElem(rt.Elem()) && g.cvTy == nil && !g.cvTyped {
+		if r.Intn(3) != 0 {
+			t := genTy(r, 1, TyOpts{})
+			g.cvTy = &t
+		} else {
+			g.cvTyped = true
+		}
+		defer func() {
+			g.cvTy, g.cvTyped = nil, false
+			if c18MixedCval(v) {
+				g.hitMixed = true
+			}
+		}()
 	}
 	switch rt.Kind() {
 	case reflect.Int8, reflect.Int16, reflect.Int32, reflect.Int64, reflect.Int:
@@ -695,6 +829,17 @@ func c18To(g reflect.Value, ty cty.Type) (impl string, v cty.Value, err error, p
 		impl = "ok " + encVal(v)
 	}
 	return
+}
+
+// c18AddFrom records a decode as a correspondence case.  A failure is sent together with what
+// was observed: fromCtyObject ranges over a Go map, so which failing attribute is met first
+// (an error or a panic) is Go's choice; the model accepts the answer iff some schedule gives it.
+func c18AddFrom(ctx *Ctx, impl, vw, tw string) {
+	if impl == "err" || impl == "panic" {
+		ctx.Add("gocty.fromcty", impl, vw, tw, impl)
+		return
+	}
+	ctx.Add("gocty.fromcty", impl, vw, tw)
 }
 
 func c18NumLit(f *big.Float) string {
@@ -1039,7 +1184,7 @@ func runC18RoundTrip(ctx *Ctx) {
 	// ImpliedType / bridge type of every member of the family and of the implied-only shapes
 	allImplied := append([]c18Fam{}, c18Family...)
 	for _, rt := range c18ImpliedOnly {
-		allImplied = append(allImplied, c18Fam{rt, false})
+		allImplied = append(allImplied, c18Fam{rt, false, false})
 	}
 	for _, f := range allImplied {
 		tw := encGoTy(f.rt)
@@ -1054,9 +1199,9 @@ func runC18RoundTrip(ctx *Ctx) {
 		case ierr == nil:
 			impl = "ok " + encTy(it)
 		}
-		ctx.Add("gocty.implied", impl, tw)
+		ctx.Add("gocty.implied", impl, tw, c18TagTab(f.rt))
 		if berr == nil {
-			ctx.Add("gocty.bridge", "ok "+encTy(bt), tw)
+			ctx.Add("gocty.bridge", "ok "+encTy(bt), tw, c18TagTab(f.rt))
 			if pure && (ierr != nil || !it.Equals(bt)) {
 				ctx.Fail(Failure{Site: "implied", Sig: "ImpliedType differs from the documented mapping", What: "ImpliedType result", Input: tw, GoLit: f.rt.String(), Outcome: impl})
 			}
@@ -1064,7 +1209,7 @@ func runC18RoundTrip(ctx *Ctx) {
 				ctx.Fail(Failure{Site: "implied", Sig: "ImpliedType accepts an array or big number", What: "ImpliedType documents no cty type for arrays and big numbers", Input: tw, GoLit: f.rt.String(), Outcome: impl})
 			}
 		} else {
-			ctx.Add("gocty.bridge", "err", tw)
+			ctx.Add("gocty.bridge", "err", tw, c18TagTab(f.rt))
 			if ierr == nil {
 				ctx.Fail(Failure{Site: "implied", Sig: "ImpliedType accepts a struct without cty tags", What: "a struct without tagged fields has no cty type", Input: tw, GoLit: f.rt.String(), Outcome: impl})
 			}
@@ -1094,6 +1239,10 @@ func runC18RoundTrip(ctx *Ctx) {
 		ctx.Eval("rt "+gw+" "+tw, c18Nested(f.rt))
 		lit := fmt.Sprintf("g := %#v /* %s */; ty := %#v; v, _ := gocty.ToCtyValue(g, ty); var back %s; err := gocty.FromCtyValue(v, &back)", gv.Interface(), gw, ty, f.rt)
 		fail := func(outcome string) {
+			if f.mistagged {
+				ctx.Tag("rt-mistagged-not-exact")
+				return
+			}
 			sig := "round trip does not reproduce the Go value"
 			switch {
 			case g.hitNFC:
@@ -1104,12 +1253,21 @@ func runC18RoundTrip(ctx *Ctx) {
 			ctx.Fail(Failure{Site: "roundtrip", Sig: sig, What: "FromCtyValue(ToCtyValue(g, implied type)) must reproduce g exactly, nil <-> null",
 				Input: gw + " " + tw, GoLit: lit, Outcome: outcome})
 		}
+		if g.hitMixed {
+			// members of different types can not be one cty list/map: "exact or refuses" demands an error
+			ctx.Tag("rt-mixed:" + implTo[:2])
+			if implTo != "err" {
+				ctx.Fail(Failure{Site: "regression", Sig: "repaired defect is back: members of different types must be refused by ToCtyValue",
+					What: "a Go value that has no cty representation must be refused with an error", Input: gw + " " + tw, GoLit: lit, Outcome: "ToCtyValue: " + implTo})
+			}
+			return
+		}
 		if !strings.HasPrefix(implTo, "ok") {
 			fail("ToCtyValue: " + implTo)
 			return
 		}
 		implFrom, target, _, _, _ := c18From(v, f.rt)
-		ctx.Add("gocty.fromcty", implFrom, encVal(v), tw)
+		c18AddFrom(ctx, implFrom, encVal(v), tw)
 		if !strings.HasPrefix(implFrom, "ok") {
 			fail("FromCtyValue: " + implFrom)
 			return
@@ -1148,6 +1306,29 @@ func runC18RoundTrip(ctx *Ctx) {
 			g.distinct = true
 		}
 		one(f, g, 3)
+	}
+	// repaired defect 99f9cb6: members of different types are refused with an error (list, map, set target)
+	for _, w := range []struct {
+		g  interface{}
+		ty cty.Type
+	}{
+		{[]cty.Value{cty.False, cty.NullVal(cty.String)}, cty.List(cty.DynamicPseudoType)},
+		{map[string]cty.Value{"a": cty.StringVal("a"), "b": cty.NumberIntVal(1)}, cty.Map(cty.DynamicPseudoType)},
+		{[]cty.Value{cty.StringVal("a"), cty.NumberIntVal(1)}, cty.Set(cty.DynamicPseudoType)},
+		{[2]cty.Value{cty.True, cty.EmptyObjectVal}, cty.List(cty.DynamicPseudoType)},
+	} {
+		gv := reflect.ValueOf(w.g)
+		impl, _, _, _ := c18To(gv, w.ty)
+		if w.ty.IsSetType() {
+			ctx.Tag("regression") // sets built by ToCtyValue are not modelled
+		} else {
+			ctx.Add("gocty.tocty", impl, encGoVal(gv), encTy(w.ty), "()")
+		}
+		ctx.Eval("regression tocty "+encGoVal(gv)+" "+encTy(w.ty), true)
+		if impl != "err" {
+			ctx.Fail(Failure{Site: "regression", Sig: "repaired defect is back: members of different types must be refused by ToCtyValue", What: "ToCtyValue on cty.Value members of different types",
+				Input: encGoVal(gv) + " " + encTy(w.ty), GoLit: fmt.Sprintf("gocty.ToCtyValue(%#v, %#v)", w.g, w.ty), Outcome: impl})
+		}
 	}
 	// NaN is outside the property; the model still has to agree on what happens
 	for _, x := range []interface{}{math.NaN(), float32(math.NaN()), []float64{1, math.NaN()}} {
@@ -1259,7 +1440,7 @@ func runC18Decode(ctx *Ctx) {
 	emit := func(v cty.Value, rt reflect.Type, tag string) {
 		impl, _, _, _, why := c18From(v, rt)
 		vw, tw := encVal(v), encGoTy(rt)
-		ctx.Add("gocty.fromcty", impl, vw, tw)
+		c18AddFrom(ctx, impl, vw, tw)
 		ctx.Eval("fromcty "+vw+" "+tw, c18Nested(rt))
 		ctx.Tag(tag + ":" + impl[:2])
 		c18Judge(ctx, v, rt, impl, why)
@@ -1392,7 +1573,7 @@ func runC18Regressions(ctx *Ctx) {
 	for _, g := range regs {
 		impl, _, _, _, why := c18From(g.v, g.rt)
 		vw, tw := encVal(g.v), encGoTy(g.rt)
-		ctx.Add("gocty.fromcty", impl, vw, tw)
+		c18AddFrom(ctx, impl, vw, tw)
 		ctx.Eval("regression "+vw+" "+tw, true)
 		ctx.Tag("regression")
 		if impl != g.want {
